@@ -5,6 +5,7 @@ import ClairModel.Model.FeedFlat
 import ClairModel.Model.FeedOval
 import ClairModel.Model.FeedOsv
 import ClairModel.Model.FeedVex
+import ClairModel.Model.FeedOvalScope
 import ClairModel.Gen.Severity
 import ClairModel.Gen.Feeds
 
@@ -290,6 +291,28 @@ def pOsv : P String := do
   let advs ← many pOsvAdvisory
   pure (showOpt (osvParse osvEco (normalize codeOsvDbMode codeOsvDb codeOsvDbDefault) osvRepoURIs updater repoName advs))
 
+/-! ### OVAL criteria read with their operators (the specification the oracle uses) -/
+
+partial def pSTree : P STree := do
+  let op ← str
+  let subs ← many pSTree
+  let leaves ← many (do
+    let testRef ← str
+    let comment ← str
+    pure ({ testRef, comment } : Criterion))
+  pure (.node op subs leaves)
+
+/-- `ovalscope`: the (package, module) pairs a definition states when its
+    criteria are read with their operators, sorted. -/
+def pOvalScope : P String := do
+  let root ← pRoot
+  let t ← pSTree
+  let d : OvalDef := { id := "", title := "", desc := "", severity := "", refUrls := [], advRefs := [], bugs := [], cveHrefs := [],
+                       platforms := [], cpes := [], criteria := t.erase }
+  let vs := rpmDefScoped root (protoSingle (fun _ => 0) "" "") d t
+  let rs := sortStrings (vs.map fun v => hexStr v.pkgName ++ "@" ++ hexStr v.pkgModule)
+  pure (" ".intercalate (s!"ok {rs.length}" :: rs))
+
 /-! ### VEX -/
 
 def pPurl : P PurlHelper := do
@@ -405,6 +428,7 @@ def dispatch : P String := do
   | "oval" => pOval
   | "osv" => pOsv
   | "vex" => pVex
+  | "ovalscope" => pOvalScope
   | "reset" => pure "ok"
   | _ => failure
 
